@@ -279,7 +279,8 @@ func runAssembleBound(c *Ctx, r *Rep) {
 		r.undecided("assemble|(compile.Instructions).Assemble", token.NoPos, "anchor function not found")
 		return
 	}
-	fd := c.Decl(m)
+	cp := c.MustPkg("compile")
+	fd := c.Expand(cp, c.Decl(m)) // the fixpoint loop may live in a helper
 	r.analysed("(compile.Instructions).Assemble")
 	recv := ""
 	if len(fd.Recv.List[0].Names) == 1 {
@@ -305,6 +306,18 @@ func runAssembleBound(c *Ctx, r *Rep) {
 		}
 		found = true
 		scales := strings.Contains(exprStr(is.Cond), "len("+recv+")")
+		// the bound hoisted into a local: maxPasses := 2*len(is) + 10
+		for _, origin := range localOrigins(cp.TypesInfo, fd.Body) {
+			_ = origin
+		}
+		ast.Inspect(is.Cond, func(m ast.Node) bool {
+			if id, ok := m.(*ast.Ident); ok {
+				if o := localOrigins(cp.TypesInfo, fd.Body)[id.Name]; o != nil && strings.Contains(exprStr(o), "len(") {
+					scales = true
+				}
+			}
+			return true
+		})
 		r.check(scales, "assemble|give-up bound scales with the code", is.Pos(),
 			"the pass limit is a multiple of the number of instructions",
 			fmt.Sprintf("the assembler gives up (panic, which surfaces as SystemError) when `%s`: a limit that does not grow with len(%s) rejects valid large programs — each pass may widen as few as one jump, so up to len(%s) passes can be needed", exprStr(is.Cond), recv, recv))
